@@ -352,5 +352,21 @@ def emit_builder(T, namespace, path, note):
             sect = BSECT.index(sk[1])
         has_ip = "true" if any(t == ("insert_point",) for _, t in m["params"]) else "false"
         rows.append(f"⟨{nc(m['name'])}, {params}, {opv[m['opname']]}, {rt}, {idk}, {idp}, [" + ", ".join(slots) + f"], {sink}, {sect}, {has_ip}, 0⟩")
+    # maximal runs of non-wrapper methods with non-decreasing opcode (so that the Lean table check can merge-walk the
+    # ascending grammar table instead of looking every opcode up)
     f.list_def("methods", "MethodSpec", rows)
+    groups, cur, prev = [], [], -1
+    for m, row in zip(T["builder"], rows):
+        if m["kind"] == "wrapper":
+            continue
+        o = opv[m["opname"]]
+        if o < prev:
+            groups.append(cur); cur = []
+        cur.append(row); prev = o
+    if cur:
+        groups.append(cur)
+    for gi, g in enumerate(groups):
+        f.list_def(f"methodGroup{gi}", "MethodSpec", g)
+    f.raw("def methodGroups : List (List MethodSpec) := [" + ", ".join(f"methodGroup{gi}" for gi in range(len(groups))) + "]")
+    f.list_def("wrappers", "MethodSpec", [row for m, row in zip(T["builder"], rows) if m["kind"] == "wrapper"])
     return write_if_changed(path, f.text())
